@@ -6,7 +6,7 @@ WIT = ["priority_pair_checked", "id_tiebreak_in_round", "time_priority_in_round"
 RULE = ("every operation history over the alphabet (clock step, limit/market submissions with and without time-to-live, "
         "cancels of live and dead orders, matching round, running switch) up to the stated depth from the empty book and "
         "from each seed book, in continuous and in batch mode, executed on a real Market; per round no lower-priority order is filled while a higher-priority one keeps volume (priority key computed by the monitor), in every state the best order of each side is the key minimum, the comparison operators agree with the key on every pair of resting orders, and popping a copy of the queue yields priority order; "
-        "plus the deep one-sided book grids (every arrival order of 5-7 levels x cancels x sweeps; every heap layout of 9-10 (thorough: 11) levels x a sweep of k levels followed by one round per remaining level); distinct = canonical market states; plus every execution within deviation bound 1 (thorough: 2) of all whole-run scenario families, the priority clause evaluated on every matching round")
+        "plus the deep one-sided book grids (every arrival order of 5-7 levels x cancels x sweeps; every heap layout of 9-10 (thorough: 11) levels x a sweep of k levels followed by one round per remaining level); distinct = canonical market states; plus every execution within deviation bound 1 of all whole-run scenario families, the priority clause evaluated on every matching round")
 
 
 def factory():
